@@ -105,6 +105,16 @@ func installHooks() {
 		}
 		heldMu.Unlock()
 	}
+	leader.VerifLockObj = func(kind byte, mu any) {
+		if inSample.Load() {
+			return
+		}
+		d := curDriver.Load()
+		if d == nil || d.free || d.plan.Sched.InLock <= 0 {
+			return
+		}
+		d.lockObj(kind, mu)
+	}
 	leader.VerifYield = func(instanceID, site string) {
 		if inSample.Load() {
 			return
@@ -223,6 +233,96 @@ func (d *Driver) lockEvent(site string) {
 	d.lockHeld[g] = append(h, id)
 }
 
+// lockObj: identity of the mutex a goroutine is about to acquire / has acquired / has released
+// (plans with Sched.InLock only). Exactly one library goroutine runs at a time, so a mutex that is
+// owned by another goroutine when this one asks for it belongs to a goroutine that is parked inside
+// its critical section (or held back behind one): this goroutine waits here, durably blocked,
+// instead of inside sync.Mutex.Lock, which synctest does not count as blocked.
+type lockOwner struct {
+	g uint64
+	w bool
+}
+
+func (d *Driver) lockObj(kind byte, mu any) {
+	g := goid()
+	switch kind {
+	case 'l', 'r':
+		for {
+			d.mu.Lock()
+			var holder uint64
+			for _, o := range d.lockOwn[mu] {
+				if o.g != g && (kind == 'l' || o.w) {
+					holder = o.g
+				}
+			}
+			if holder == 0 || d.ending {
+				delete(d.gatedOn, g)
+				d.mu.Unlock()
+				return
+			}
+			// a cycle of goroutines each waiting for a mutex the next one holds is a deadlock
+			d.gatedOn[g] = mu
+			seen := map[uint64]bool{g: true}
+			for h := holder; ; {
+				if seen[h] {
+					if !d.deadlockSeen {
+						d.deadlockSeen = true
+						for _, id := range []string{"C09", "C11", "C13"} {
+							if d.plan.judges(id) {
+								d.h.violate(id, "deadlock-executed/"+leaderFrames(3, 4), fmt.Sprintf("goroutines wait for each other's mutexes (cycle through g%d)", d.gidOrd(h)), d.now(), d.step)
+							}
+						}
+					}
+					break
+				}
+				seen[h] = true
+				m2, ok := d.gatedOn[h]
+				if !ok {
+					break
+				}
+				next := uint64(0)
+				for _, o := range d.lockOwn[m2] {
+					if o.g != h {
+						next = o.g
+					}
+				}
+				if next == 0 {
+					break
+				}
+				h = next
+			}
+			ch := make(chan struct{})
+			d.gateWait[mu] = append(d.gateWait[mu], ch)
+			d.probe("held_back_before_lock")
+			d.mu.Unlock()
+			<-ch
+		}
+	case 'L', 'R':
+		d.mu.Lock()
+		d.lockOwn[mu] = append(d.lockOwn[mu], lockOwner{g: g, w: kind == 'L'})
+		d.mu.Unlock()
+	case 'U':
+		d.mu.Lock()
+		os := d.lockOwn[mu]
+		for i := len(os) - 1; i >= 0; i-- {
+			if os[i].g == g {
+				os = append(os[:i], os[i+1:]...)
+				break
+			}
+		}
+		if len(os) == 0 {
+			delete(d.lockOwn, mu)
+		} else {
+			d.lockOwn[mu] = os
+		}
+		for _, ch := range d.gateWait[mu] {
+			close(ch)
+		}
+		delete(d.gateWait, mu)
+		d.mu.Unlock()
+	}
+}
+
 func (d *Driver) yield(instanceID, site string) {
 	if d.free {
 		if d.plan.Sched.YieldProb > 0 && !strings.HasPrefix(site, "@") {
@@ -235,6 +335,18 @@ func (d *Driver) yield(instanceID, site string) {
 			d.lockEvent(site)
 		}
 		return
+	}
+	if strings.HasSuffix(site, "@a") {
+		// yields in front of atomic operations: only in plans that explore critical sections
+		if d.plan.Sched.InLock <= 0 || inObserver.Load() > 0 {
+			return
+		}
+		// the harness itself reads IsLeader()/Token() under its own lock (one library goroutine runs
+		// at a time: if the lock is taken, it is this goroutine's harness code that holds it)
+		if !d.mu.TryLock() {
+			return
+		}
+		d.mu.Unlock()
 	}
 	if site == "callbackTurn:unlocked" {
 		// between the library's last ordering action for a callback and the first instruction of
@@ -284,11 +396,29 @@ func (d *Driver) yield(instanceID, site string) {
 		}
 	}
 	g := goid()
-	if g == d.driverGID || holdsLock(g) {
+	inLock := false
+	if g == d.driverGID {
 		d.mu.Unlock()
 		return
 	}
-	y := &yieldReq{site: site, d: st, ch: make(chan struct{}), gid: g, inst: -1}
+	if holdsLock(g) {
+		// parked inside its critical section only in plans that ask for it, and without a stall
+		if d.plan.Sched.InLock <= 0 || !d.rYield.Bool(d.plan.Sched.InLock) {
+			d.mu.Unlock()
+			return
+		}
+		inLock, st = true, 0
+		d.probe("parked_inside_critical_section")
+		// lock-free readers see the flag as it is now: record a change before anybody else runs
+		if d.hasBare {
+			d.pollClaimsLocked("parked:" + polledStack(leaderFrames(3, 9)))
+		}
+		d.probe("inlock:" + site)
+	}
+	y := &yieldReq{site: site, d: st, ch: make(chan struct{}), gid: g, inst: -1, inLock: inLock}
+	if inLock {
+		d.parkedInLock++
+	}
 	if instanceID == "" {
 		// pre-lock site: the instance is the one this goroutine was last seen working for
 		if i, ok := d.gidInst[g]; ok {
@@ -335,6 +465,9 @@ func newDriver(p *Plan, keepLog bool) *Driver {
 		gids:       map[uint64]int{},
 		gidInst:    map[uint64]int{},
 		parked:     map[*yieldReq]bool{},
+		lockOwn:    map[any][]lockOwner{},
+		gateWait:   map[any][]chan struct{}{},
+		gatedOn:    map[uint64]any{},
 		inflight:   map[*Op]bool{},
 		opTrig:     map[[2]int][]*Action{},
 		firedAct:   map[*Action]bool{},
